@@ -1,4 +1,4 @@
--- PINNED by bin/pin_tables: copy of Gen/Dispatch.lean as generated from /repo at 64a36cf — regenerate, do not edit
+-- PINNED by bin/pin_tables: copy of Gen/Dispatch.lean as generated from /repo at fb6d1eb — regenerate, do not edit
 namespace Ggql.Pinned
 def dispatchOrder : List String := ["resolver", "any", "reflect"]
 def opFallbackAnyName : Bool := false
@@ -35,6 +35,7 @@ def metaArgsUnchecked : Bool := false
 def ptrValueDistinct : Bool := false
 def unionAtMember : Bool := false
 def impliedSchemaUnvalidated : Bool := false
+def dupDirectiveInlineAccepted : Bool := false
 def reflectOptionalRefused : Bool := false
 def inputDefaultsRaw : Bool := true
 def listNotCoerced : Bool := false
